@@ -37,3 +37,14 @@ func dsSame(e *eventbus.StoredEvent, r dsRec) bool {
 	return e.Type == r.typ && string(e.Data) == string(r.data) && e.Timestamp.Equal(r.ts)
 }
 
+type dsLog struct{ n int }
+
+func (l *dsLog) Printf(format string, v ...any) { l.n++ }
+
+// dsOpts: the store's optional knobs (request timeout, logger, explicit content type) on or off.
+func dsOpts() []Option {
+	if vBool() {
+		return []Option{WithTimeout(5 * time.Second), WithLogger(&dsLog{}), WithContentType("application/json")}
+	}
+	return nil
+}
